@@ -15,14 +15,14 @@ RULE = ("plans: timeouts.idle / timeouts.udp each in {absent,0,1,2,5,30,600,3600
 LEVEL_TEXT = ("seeded exploration through the real main(): the configured timeouts reach the registry only through start-up order, so each plan "
               "boots the whole binary with generated timeouts and measures on the virtual clock when the proxy closes an idle tunnel "
               "(EOF/reset seen by the client, or the record's terminal timestamp for UDP sessions); hours of idle time cost microseconds")
-LEVEL_NOTE = "virtual clock (tokio paused time + interposed clock_gettime); slack G=3s above, 150 ms below for delivery delays; TPROXY listener not simulated"
+LEVEL_NOTE = "virtual clock (tokio paused time + interposed clock_gettime); slack G=3s above, 150 ms below for delivery delays; the TPROXY listener runs in TCP mode (simulated netfilter diversion + SO_ORIGINAL_DST), its UDP mode is not simulated"
 ASSUMPTIONS = ["'last activity' is taken from the harness' view of when data was delivered (<= 20 ms from the proxy's own stamp)"]
 
 TECHNIQUE = "deterministic simulation: real main() on a virtual clock, seeded traffic patterns, bounded-time oracle on close instants"
 G_US = 3_000_000
 LOW_SLACK_US = 150_000
 VALUES = [None, 0, 1, 2, 5, 30, 600, 3600]
-KINDS = [("http", 3), ("socks5", 2), ("socks4", 1), ("reverse", 2), ("quic", 1), ("socks5udp", 2), ("reverseudp", 2), ("httpudp", 2)]
+KINDS = [("http", 3), ("socks5", 2), ("socks4", 1), ("reverse", 2), ("tproxy", 1), ("quic", 1), ("socks5udp", 2), ("reverseudp", 2), ("httpudp", 2)]
 
 
 def wchoice(rng, items):
@@ -71,6 +71,8 @@ def gen(rng, tier, i):
             li = sc.add_socks_listener("l")
         elif kind == "reverse":
             li = sc.add_reverse_listener("l", oaddr)
+        elif kind == "tproxy":
+            li = sc.add_tproxy_listener("l")
         else:
             li = sc.add_quic_listener("l")
         host, port = oaddr.split(":")
